@@ -1,0 +1,10 @@
+//go:build verif
+
+package arraylist
+
+// VerifLenCap returns len(elements), cap(elements) and size. Read-only accessor for the verification harness (C15).
+func (l *List[E]) VerifLenCap() (length, capacity, size int) {
+	return len(l.elements), cap(l.elements), l.size
+}
+
+func (s *ListSafe[E]) VerifLenCap() (length, capacity, size int) { return s.unsafe.VerifLenCap() }
